@@ -22,7 +22,7 @@ ASSUMPTIONS = ['the reflective traversal (vars(node), lists included, _token_map
                'any attribute"; the root itself is not yielded (documented: children only)']
 BUDGET_S = {'quick': 50, 'thorough': 600}
 REQUIRED_HITS = ['walk', 'filter', 'extract', 'extract_no_match']
-FLOOR = {'quick': 1500, 'thorough': 30000}
+FLOOR = {'quick': 1500, 'thorough': 20000}
 
 
 def reflect(tree):
